@@ -225,11 +225,21 @@ class TaskScenario(ScenarioData):
                 else:
                     pred = dep
 
-                if pred is self.property:
+                if self._isSelfOrAncestor(pred):
                     successors.append(task)
                     break
 
         return successors
+
+    def _isSelfOrAncestor(self, node: Any) -> bool:
+        """True if node is this task or one of its enclosing containers (a dependency
+        on a container is a dependency on every task inside it)."""
+        current: Optional[Any] = self.property
+        while current is not None:
+            if current is node:
+                return True
+            current = current.parent
+        return False
 
     def _successorGapHours(self, successor: Any) -> float:
         """
@@ -253,7 +263,7 @@ class TaskScenario(ScenarioData):
                 onstart = getattr(dep, "onstart", False)
             else:
                 continue
-            if pred is self.property and gapduration and not onstart:
+            if self._isSelfOrAncestor(pred) and gapduration and not onstart:
                 gap_hours = max(gap_hours, self._parse_duration(gapduration))
         return gap_hours
 
